@@ -439,6 +439,42 @@ def ent_text(tree: ast.Module) -> dict[str, Any]:
     return {'key_mode': km, 'value_mode': vm, 'out_name_mode': modes[0], 'out_field_modes': modes[1:], 'output_sep': sep_const}
 
 
+def vis_deferred_usage(tree: ast.Module) -> tuple[bool, str]:
+    """_lmp_write_visibility: `W = DeferredWrites(buf)`; every `W.defer(key, fmt, ...)` reserves its slot (third argument / `write=`
+    is the literal True) with the loop variable of `range(count)` as key (one key per cluster: no key twice); `W.write()` is
+    called after the last `W.set_data(...)`, and the function returns afterwards."""
+    fn = _fn(tree, '_lmp_write_visibility')
+    ws = [n.targets[0].id for n in ast.walk(fn) if isinstance(n, ast.Assign) and len(n.targets) == 1 and isinstance(n.targets[0], ast.Name)
+          and isinstance(n.value, ast.Call) and ast.unparse(n.value.func) == 'DeferredWrites']
+    if len(ws) != 1:
+        raise TranslateError('_lmp_write_visibility: expected exactly one DeferredWrites object')
+    w = ws[0]
+    defers, sets, finals = [], [], []
+    for n in ast.walk(fn):
+        if isinstance(n, ast.Call) and isinstance(n.func, ast.Attribute) and isinstance(n.func.value, ast.Name) and n.func.value.id == w:
+            {'defer': defers, 'set_data': sets, 'write': finals}.get(n.func.attr, []).append(n)
+            if n.func.attr not in ('defer', 'set_data', 'write', 'pos_of'):
+                raise TranslateError(f'_lmp_write_visibility: line {n.lineno}: use of the DeferredWrites object not recognised: .{n.func.attr}')
+    if not defers or not sets:
+        raise TranslateError('_lmp_write_visibility: no defer / set_data call on the DeferredWrites object')
+    reserved = True
+    for d in defers:
+        flag = d.args[2] if len(d.args) >= 3 else next((k.value for k in d.keywords if k.arg == 'write'), None)
+        reserved = reserved and isinstance(flag, ast.Constant) and flag.value is True
+        # the key is the variable of an enclosing `for <key> in range(...)`
+        key = d.args[0] if d.args else None
+        loops = [lp for lp in ast.walk(fn) if isinstance(lp, ast.For) and any(x is d for x in ast.walk(lp))]
+        if not (isinstance(key, ast.Name) and any(isinstance(lp.target, ast.Name) and lp.target.id == key.id and isinstance(lp.iter, ast.Call)
+                                                  and ast.unparse(lp.iter.func) == 'range' and len(lp.iter.args) == 1 for lp in loops)):
+            raise TranslateError(f'_lmp_write_visibility: line {d.lineno}: the key of a deferred slot is not the variable of a `for k in range(n)` loop')
+    last_set = max((s_.lineno, s_.col_offset) for s_ in sets)
+    filled = len(finals) == 1 and not finals[0].args and (finals[0].lineno, finals[0].col_offset) > last_set and \
+        not any(isinstance(lp, (ast.For, ast.While, ast.If)) and any(x is finals[0] for x in ast.walk(lp)) for lp in ast.walk(fn)) and \
+        all((r.lineno, r.col_offset) > (finals[0].lineno, finals[0].col_offset) for r in ast.walk(fn)
+            if isinstance(r, ast.Return) and r.value is not None and not (isinstance(r.value, ast.Constant)))
+    return reserved and filled, f'reserved={reserved} filled={filled} ({len(defers)} defer, {len(sets)} set_data, {len(finals)} write)'
+
+
 def nl(xs: list[int]) -> str:
     return '[' + '; '.join(str(x) for x in xs) + ']%N'
 
@@ -452,15 +488,23 @@ def translate() -> tuple[str, dict]:
     w_expr, w_guard, w_src = vis_writer(gtree)
     tx = textures(gtree)
     vo_w, vo_r = vis_offset_order(gtree)
+    vd_ok, vd_src = vis_deferred_usage(gtree)
     rec_text, rec_side = c11_records.generate(tree)
     et = ent_text(gtree)
     dd_text, dd_side = c11_dedup.generate(tree)
     hp_text, hp_side = c11_helpers.generate(tree)
     from translate import c11_overlayrec
     ov_text, ov_side = c11_overlayrec.generate(tree)
-    L = ['(* GENERATED by translate/c11_glue.py + c11_records.py + c11_dedup.py + c11_helpers.py + c11_overlayrec.py from src/srctools/bsp.py, binformat.py, vmf.py. Do not edit. *)',
+    # loops over index tables and the rebuild order are read from the tree as written (the normalisation drops `list(...)` around
+    # a loop's iterable where that is harmless; whether it is harmless is exactly the question here)
+    from translate import c11_worklist
+    wl_text, wl_side = c11_worklist.generate(ast.parse(src_text('bsp.py')))
+    from translate import c11_phys, c11_spritedict
+    sd_text, sd_side = c11_spritedict.generate(tree)
+    ph_text, ph_side = c11_phys.generate(c11_norm.functions(tree, {'_lmp_write_bmodels', '_lmp_read_bmodels'}))
+    L = ['(* GENERATED by translate/c11_glue.py + c11_records.py + c11_dedup.py + c11_helpers.py + c11_overlayrec.py + c11_worklist.py + c11_phys.py + c11_spritedict.py from src/srctools/bsp.py, binformat.py, vmf.py. Do not edit. *)',
          'From Coq Require Import List String NArith ZArith.',
-         'From SV Require Import Fmt.BspVisRow Fmt.BspTexStrings Fmt.BspRecords Fmt.BspEntLump Fmt.BspDedup Fmt.BspFlagSplit Fmt.BspOverlayRec.',
+         'From SV Require Import Fmt.BspVisRow Fmt.BspTexStrings Fmt.BspRecords Fmt.BspEntLump Fmt.BspDedup Fmt.BspFlagSplit Fmt.BspOverlayRec Fmt.BspWorklist Fmt.BspPhys Bin.BspDeferred Fmt.BspSpriteDict.',
          'Import ListNotations.', 'Open Scope string_scope.',
          f'(* runlength_decode: {r_src} *)',
          f'Definition vis_row_reader : rexp := {r_expr}.',
@@ -470,19 +514,25 @@ def translate() -> tuple[str, dict]:
          f'Definition vis_writer_checks_row_length : bool := {"true" if w_guard else "false"}.',
          '(* which row set the two offsets of a header entry point at: writer (set_data arguments), reader (unpack targets) *)',
          'Definition vis_offset_order : list string * list string := ([' + '; '.join(f'"{x}"' for x in vo_w) + '], [' + '; '.join(f'"{x}"' for x in vo_r) + ']).',
+         f'(* DeferredWrites in _lmp_write_visibility: {vd_src} *)',
+         f'Definition vis_deferred_usage_ok : bool := {"true" if vd_ok else "false"}.',
          f'Definition tex_cfg : texcfg := ({nl(tx["search_suffix"])}, {nl(tx["append_suffix"])}, {tx["maxlen"]}%nat, {tx["window"]}%nat).',
          f'Definition tex_codec_same : bool := {"true" if tx["codec_same"] else "false"}.',
          f'Definition ent_cfg : entcfg := ({et["key_mode"]}, {et["value_mode"]}, {et["out_name_mode"]}, [{"; ".join(et["out_field_modes"])}]).',
          f'Definition ent_output_sep : N := {et["output_sep"]}%N.',
-         rec_text, dd_text, hp_text, ov_text, '']
+         rec_text, dd_text, hp_text, ov_text, wl_text, ph_text, sd_text, '']
     side = {'vis_row_reader': r_src, 'vis_row_writer': w_src, 'vis_reader_passes_cluster_count': r_passes,
             'vis_writer_checks_row_length': w_guard, 'textures': tx}
     side['ent_text'] = et
     side['vis_offset_order'] = [vo_w, vo_r]
+    side['vis_deferred_usage'] = vd_src
     side.update(rec_side)
     side.update(dd_side)
     side.update(hp_side)
     side.update(ov_side)
+    side.update(wl_side)
+    side.update(ph_side)
+    side.update(sd_side)
     return '\n'.join(L), side
 
 
